@@ -231,7 +231,7 @@ func checkTrunc(c truncCase) *vlib.Failure {
 }
 
 func genSeqSpec(t *rapid.T, label string, maxLen int, pairedOnly bool) seqSpec {
-	s := seqSpec{Quality: rapid.Bool().Draw(t, label+"-quality"), Alpha: rapid.SampledFrom([]string{"DNA", "DNAredundant", "RNA", "Protein", "Protein"}).Draw(t, label+"-alpha"),
+	s := seqSpec{Quality: rapid.Bool().Draw(t, label+"-quality"), Alpha: rapid.SampledFrom([]string{"DNA", "DNAredundant", "RNA", "Protein", "Protein", "PlainDNA", "PairedProtein"}).Draw(t, label+"-alpha"),
 		Offset: rapid.SampledFrom([]int{0, 0, 1, 5, 50, -1, -7, -50}).Draw(t, label+"-offset"), Circular: rapid.IntRange(0, 2).Draw(t, label+"-circular") == 0}
 	n := rapid.IntRange(0, maxLen).Draw(t, label+"-len")
 	pool := sm.Alpha(s.Alpha).Letters()
@@ -604,6 +604,9 @@ func stitchClasses(c stitchCase) []string {
 	}
 	if sm.PairedLetters(c.S.Alpha) == "" {
 		l = append(l, "non-complementing")
+	}
+	if c.S.Alpha == "PlainDNA" || c.S.Alpha == "PairedProtein" {
+		l = append(l, "user-built-alphabet")
 	}
 	if c.SameDst {
 		l = append(l, "dst=src")
